@@ -50,6 +50,11 @@ func RunOracles(prop string, cases []GenCase, impl map[string]map[string]string)
 			if kv["prep"] != "ok" || kv["r0"] != want {
 				viol(gc, "string-literal-value", fmt.Sprintf("want r0=%s got prep=%s r0=%s", want, kv["prep"], kv["r0"]))
 			}
+		case strings.HasPrefix(gc.Role, "expectint:"):
+			want := "V:INTEGER:" + hexs(strings.TrimPrefix(gc.Role, "expectint:"))
+			if kv["prep"] != "ok" || kv["r0"] != want {
+				viol(gc, "number-literal-value", fmt.Sprintf("an integer literal must denote its decimal value: want r0=%s got prep=%s r0=%s", want, kv["prep"], kv["r0"]))
+			}
 		case strings.HasPrefix(gc.Role, "trace:"):
 			parts := strings.SplitN(strings.TrimPrefix(gc.Role, "trace:"), ":", 2)
 			wantO, wantR := parts[0], ""
